@@ -92,8 +92,22 @@ class RspHandler:
         crc2 = int(pkt[-2:], 16)
         if crc != crc2:
             raise ValueError(f"Checksum {crc} != {crc2}")
-        pkt = pkt[1:-3]
-        return pkt
+        return RspHandler.rsp_unescape(pkt[1:-3])
+
+    @staticmethod
+    def rsp_unescape(data):
+        """undo the escaping of rsp_pack: '}' followed by (char ^ 0x20)"""
+        res = []
+        escaped = False
+        for c in data:
+            if escaped:
+                res.append(chr(ord(c) ^ 0x20))
+                escaped = False
+            elif c == "}":
+                escaped = True
+            else:
+                res.append(c)
+        return "".join(res)
 
 
 def decoder():
